@@ -19,7 +19,8 @@ EXTENDS EvmGas, Json, TLC
 
 CONSTANTS NCalls,                \* call instructions per sequence
           GasArgs,               \* classes of the gas argument: "0", "1", "2300", "50000", "all"
-          Targets                \* "empty" (no code), "returner", "reverter"
+          Targets,               \* "empty" (no code), "returner", "reverter"
+          CallValues             \* classes of the value operand: "0", "1", "p255" (2^255), "p255p1", "max" (2^256-1)
 
 VARIABLES hist, mcase
 ggvars == <<gvars, hist, mcase>>
@@ -32,7 +33,7 @@ CallInit == GInit /\ hist = <<>> /\ mcase = <<>>
 (* one call instruction of the outermost frame: the callee runs and ends at once *)
 OneCall(k, g, v, t) ==
   /\ Len(hist) < NCalls /\ Depth = 1 /\ ~ended
-  /\ (v = 1 => k \in {"call", "callcode"})
+  /\ (v # "0" => k \in {"call", "callcode"})
   /\ TopGas >= 2
   /\ LET c == 2
          avail == TopGas - c
@@ -44,10 +45,28 @@ OneCall(k, g, v, t) ==
   /\ hist' = Append(hist, [op |-> k, gas |-> g, value |-> v, target |-> t])
   /\ UNCHANGED <<ended, mcase>>
 
-CallNext == \E k \in Kinds, g \in GasArgs, v \in {0, 1}, t \in Targets : OneCall(k, g, v, t)
+CallNext == \E k \in Kinds, g \in GasArgs, v \in CallValues, t \in Targets : OneCall(k, g, v, t)
 CallSpec == CallInit /\ [][CallNext]_ggvars
 CallDump == Len(hist) = NCalls => PrintT(<<"CALLS", ToJson(hist)>>)
 CallInv == Conserved /\ Bounded /\ DepthOK
+
+(* ---------------------------------------------------------- code layouts *)
+(* The jump-destination analysis of the code runs when a jump to a real JUMPDEST is executed.  Layouts:   *)
+(* `PUSH1 3, JUMP, JUMPDEST, STOP`, padding, and at the very end of the code a PUSHn (n = 1..32) of which   *)
+(* only `present` < n data bytes exist, the whole code having every length modulo 8.  Whatever the layout, *)
+(* the run ends at the STOP behind the JUMPDEST.                                                           *)
+CONSTANTS Presents               \* how many data bytes of the final PUSH are present (values >= n are skipped)
+LayoutCode(n, pr, m) ==
+  LET head == <<96, 3, 86, 91, 0>>
+      tailLen == 1 + pr
+      padLen == CHOOSE k \in 0..7 : (Len(head) + k + tailLen) % 8 = m
+  IN head \o [i \in 1..padLen |-> 0] \o <<95 + n>> \o [i \in 1..pr |-> 91]
+Layouts == {c \in [n : 1..32, present : Presents, mod : 0..7] : c.present < c.n}
+LayoutInit == GInit /\ hist = <<>> /\ mcase \in Layouts
+LayoutSpec == LayoutInit /\ [][FALSE]_ggvars
+LayoutDump == PrintT(<<"LAYOUT", ToJson([n |-> mcase.n, present |-> mcase.present, mod |-> mcase.mod,
+                                         code |-> LayoutCode(mcase.n, mcase.present, mcase.mod)])>>)
+LayoutInv == Len(LayoutCode(mcase.n, mcase.present, mcase.mod)) % 8 = mcase.mod
 
 (* --------------------------------------------------------------- memory *)
 Offs == {"0", "32", "p32", "p63m1", "p63", "p64m1", "p64", "p255", "p255x", "max"}
